@@ -39,7 +39,10 @@ type LockAudit struct {
 	// the field (e.g. connection.ref guarded by Manager.mu): any held lock of
 	// that lock field satisfies the access.
 	Foreign map[*types.Var]bool
-	fns     []*ssa.Function
+	// NoPropagate reports an access without its lock in the function where it
+	// occurs instead of turning it into a requirement on the callers.
+	NoPropagate bool
+	fns         []*ssa.Function
 	paths   map[*ssa.Function][]Path
 	roots   map[*ssa.Function]*Frame
 	// per function summaries
@@ -94,7 +97,16 @@ func loadedField(e *PPA, st *State, rv RV) (RV, *types.Var) {
 
 // NewLockAudit analyses all non-test functions of pkg.
 func NewLockAudit(c *Ctx, pkg string, guards map[*types.Var]*types.Var, maxVisits int, foreign ...*types.Var) *LockAudit {
-	la := &LockAudit{c: c, pkg: pkg, guards: guards, Foreign: map[*types.Var]bool{}, paths: map[*ssa.Function][]Path{}, roots: map[*ssa.Function]*Frame{},
+	return newLockAudit(c, pkg, guards, maxVisits, false, foreign...)
+}
+
+// NewLockAuditLocal is NewLockAudit without propagation of requirements to callers.
+func NewLockAuditLocal(c *Ctx, pkg string, guards map[*types.Var]*types.Var, maxVisits int) *LockAudit {
+	return newLockAudit(c, pkg, guards, maxVisits, true)
+}
+
+func newLockAudit(c *Ctx, pkg string, guards map[*types.Var]*types.Var, maxVisits int, noProp bool, foreign ...*types.Var) *LockAudit {
+	la := &LockAudit{c: c, pkg: pkg, guards: guards, NoPropagate: noProp, Foreign: map[*types.Var]bool{}, paths: map[*ssa.Function][]Path{}, roots: map[*ssa.Function]*Frame{},
 		req: map[*ssa.Function]map[lockReq]string{}, acq: map[*ssa.Function]map[lockAcq]bool{}}
 	P := c.P
 	for _, f := range foreign {
@@ -135,6 +147,9 @@ func NewLockAudit(c *Ctx, pkg string, guards map[*types.Var]*types.Var, maxVisit
 				return ok
 			}
 			if strings.HasPrefix(ev.Label, "mapupdate:") || ev.Label == "builtin:delete" {
+				return true
+			}
+			if strings.HasPrefix(ev.Label, "call:dyn:") {
 				return true
 			}
 			if strings.HasPrefix(ev.Label, "call:") || strings.HasPrefix(ev.Label, "go:") {
@@ -467,13 +482,15 @@ func (la *LockAudit) local() {
 				if write {
 					mode = 'W'
 				}
-				if la.Foreign[field] {
-					la.addReq(f, lockReq{-1, lf, mode}, P.Pos(posOf(ev.In)))
-					return
-				}
-				if i := paramIndex(root, base); i >= 0 {
-					la.addReq(f, lockReq{i, lf, mode}, P.Pos(posOf(ev.In)))
-					return
+				if !la.NoPropagate {
+					if la.Foreign[field] {
+						la.addReq(f, lockReq{-1, lf, mode}, P.Pos(posOf(ev.In)))
+						return
+					}
+					if i := paramIndex(root, base); i >= 0 {
+						la.addReq(f, lockReq{i, lf, mode}, P.Pos(posOf(ev.In)))
+						return
+					}
 				}
 				la.find("unguarded", f, posOf(ev.In), p, "%s of %s.%s without %s (%c) held on that object", accessKind(write), Expr(base.V), fname(field), fname(lf), mode)
 			})
@@ -597,6 +614,9 @@ func (la *LockAudit) propagate() {
 		if f.Parent() != nil {
 			entry = true // a closure analysed standalone: nobody supplies locks
 		}
+		if entry && !isExportedFn(f) && f.Parent() == nil && (addressTaken(f) || callers[f] == 0) && la.dynSitesHold(f) {
+			continue // only invoked as a function value from sites that hold / require the same locks
+		}
 		if !entry {
 			continue
 		}
@@ -611,6 +631,44 @@ func (la *LockAudit) propagate() {
 		}
 	}
 	_ = P
+}
+
+// dynSitesHold: every dynamic call site in the package whose callee type matches f's
+// signature (without receiver) either holds the foreign locks f requires or sits in a
+// function that requires them itself; at least one such site exists.
+func (la *LockAudit) dynSitesHold(f *ssa.Function) bool {
+	sig := f.Signature
+	want := types.NewSignatureType(nil, nil, nil, sig.Params(), sig.Results(), sig.Variadic())
+	sites := 0
+	ok := true
+	for _, g := range la.fns {
+		for pi := range la.paths[g] {
+			p := &la.paths[g][pi]
+			la.walk(g, p, func(ev *Ev, held []heldLock) {
+				if !strings.HasPrefix(ev.Label, "call:dyn:") || ev.Fn.V == nil {
+					return
+				}
+				if !types.Identical(ev.Fn.V.Type().Underlying(), want) {
+					return
+				}
+				sites++
+				for r := range la.req[f] {
+					if r.param >= 0 {
+						ok = false // receiver-relative requirements cannot be matched at a dynamic site
+						continue
+					}
+					if holds(held, RV{}, r.field, r.mode == 'W') {
+						continue
+					}
+					if _, has := la.req[g][r]; has {
+						continue
+					}
+					ok = false
+				}
+			})
+		}
+	}
+	return ok && sites > 0
 }
 
 func isExportedFn(f *ssa.Function) bool {
